@@ -1,39 +1,38 @@
 (* Properties/C02.v — a Reader bound to a topic partition delivers exactly the partition's
    records from its position, in order.  Only statements; every proof is [exact <lemma>].
 
-   Structure: L1 (bytes) is meant to establish, for every broker response, the FETCH CONTRACT
-   [fetch_ok]; L2 (offsets) proves the delivery theorems for every run in which the current
-   generation's data responses obey that contract.  What is proved here:
-     - L2 in full (C02_delivery_exact, C02_setoffset_next, C02_generation_exact,
-       C02_conn_offset_advances_partial), under the contract as an explicit hypothesis on labels;
-     - L1 NOT proved in general: C02_batch_decode_exact_full_statement is kept as a Definition,
-       with machine-checked instances (vm_compute) and the byte-level differential as evidence;
-     - three refutations of the unrestricted L1 statements, with witnesses (the code has defects). *)
+   Structure: L1 (bytes) establishes, for a broker response, the FETCH CONTRACT [fetch_ok]; L2
+   (offsets) proves the delivery theorems for every run in which the current generation's data
+   responses obey that contract.  Proved here:
+     - L2 in full (C02_delivery_exact, C02_setoffset_next, C02_generation_exact, ...), with the
+       contract as an explicit hypothesis on labels;
+     - C02_conn_offset_advances in full, for arbitrary response bytes;
+     - L1 decoding: see the section "L1" below for what is proved (named _partial) and the full
+       statement kept as a Definition.
+   Three defects of the code found by this check (F1 and two more) were fixed in /repo; their
+   witnesses are kept below as regression Examples. *)
 From Coq Require Import List NArith ZArith Bool.
 From KV Require Import Lib.Bits Lib.Bytes Lib.Varint Model.MsgSetReader Model.ReaderModel Spec.FetchSpec
-  Proofs.ReaderRefute Proofs.ReaderProofs Proofs.ReaderLTS.
+  Proofs.ReaderBatch Proofs.ReaderProofs Proofs.ReaderLTS.
 Import ListNotations.
 Open Scope Z_scope.
 
 (* ------------------------------------------------------------------ L1: full statements *)
-Definition no_empty_batches (l : layout) : Prop := Forall (fun b => pb_recs b <> []) l.
 Fixpoint formats_ordered (f : Z) (l : layout) {struct l} : Prop :=
   match l with [] => True | b :: t => f <= pb_fmt b /\ formats_ordered (pb_fmt b) t end.
 
-(* C02_batch_decode_exact (not proved; the exception "no record-less batch" is needed, see the
-   refutations): for every log, layout, fetch offset and legal cut, reading the batch to its
-   end yields exactly the stored records in [o, f) where f is Conn.offset after Batch.close
-   (f < o only inside a compacted hole), then io.EOF. *)
+(* C02_batch_decode_exact: for every log, layout (record-less batches included), fetch offset
+   and legal cut, reading the batch to its end yields exactly the stored records in [o, f)
+   where f >= o is Conn.offset after Batch.close, then io.EOF. *)
 Definition C02_batch_decode_exact_full_statement : Prop :=
   forall (compress : Z -> list N -> list N) (decomp : Z -> list N -> option (list N)),
     (forall c x, decomp c (compress c x) = Some x) ->
   forall log l o k hwm,
-    log_ok log -> layout_ok log l -> formats_ordered 0 l -> no_empty_batches l ->
+    log_ok log -> layout_ok log l -> formats_ordered 0 l ->
     valid_cut compress l o k -> hwm <> o ->
     exists fuel0 ms f, forall fuel, (fuel0 <= fuel)%nat ->
       fetch_run decomp fuel o hwm (fetch_response compress l o k) (Z.of_nat k) false = Some (ms, EEOF, f)
-      /\ fetch_ok log o ms f
-      /\ (forall b, In b (from_offset l o) -> pb_codec b = 0 -> True).
+      /\ fetch_ok log o ms f.
 
 (* C02_progress (not proved): a response holding one complete batch with a record >= o delivers
    at least one record *)
@@ -41,35 +40,37 @@ Definition C02_progress_full_statement : Prop :=
   forall (compress : Z -> list N -> list N) (decomp : Z -> list N -> option (list N)),
     (forall c x, decomp c (compress c x) = Some x) ->
   forall log l o k hwm fuel ms e f,
-    log_ok log -> layout_ok log l -> formats_ordered 0 l -> no_empty_batches l ->
+    log_ok log -> layout_ok log l -> formats_ordered 0 l ->
     valid_cut compress l o k -> hwm <> o ->
     (exists b r, In b (firstn 1 (from_offset l o)) /\ In r (pb_recs b) /\ o <= r_off r) ->
     fetch_run decomp fuel o hwm (fetch_response compress l o k) (Z.of_nat k) false = Some (ms, e, f) ->
     e <> EFuel -> ms <> [].
 
-(* without the exception the statement about Conn.offset is false of the code: *)
-Definition C02_conn_offset_advances_full_statement : Prop := conn_offset_never_regresses.
+(* C02_conn_offset_advances, in full and for every response whatsoever (any bytes, any cut, any
+   codec behaviour): Conn.offset after Batch.close is never below the offset the fetch was
+   issued at, and every delivered message has fetch offset <= offset < Conn.offset.  (That
+   Conn.offset is exactly 1 + the last delivered offset or the batch's lastOffset + 1 over a
+   compacted tail is the [fetch_ok] part of C02_batch_decode_exact.) *)
+Theorem C02_conn_offset_advances : forall decomp fuel o hwm bytes remain late ms e f,
+  fetch_run decomp fuel o hwm bytes remain late = Some (ms, e, f) ->
+  o <= f /\ Forall (fun g => o <= g_off g < f) ms.
+Proof. exact conn_offset_advances. Qed.
+Print Assumptions C02_conn_offset_advances.
 
-Theorem C02_empty_tail_batch_refuted : ~ C02_conn_offset_advances_full_statement.
-Proof. exact empty_tail_batch_refutes. Qed.
-Print Assumptions C02_empty_tail_batch_refuted.
-
-(* the 61-byte witness: fetch at 100, one retained record-less batch 100..104 -> Conn.offset = 1 *)
-Theorem C02_empty_tail_batch_witness :
-  fetch_run no_decomp 100 100 101 (fetch_response no_compress f1_layout 100 61) 61 false = Some ([], EEOF, 1).
+(* regression: the witnesses of the three defects fixed in /repo now meet the property *)
+Example C02_regression_empty_tail_batch :
+  fetch_run no_decomp 100 100 101 (fetch_response no_compress f1_layout 100 61) 61 false = Some ([], EEOF, 105).
 Proof. exact f1_run. Qed.
-Print Assumptions C02_empty_tail_batch_witness.
-
-Theorem C02_consecutive_empty_batches_panic_refuted : ~ fetch_never_panics.
-Proof. exact consecutive_empty_batches_panic. Qed.
-Print Assumptions C02_consecutive_empty_batches_panic_refuted.
-
-(* fetch offset 50 inside the compacted tail 48..50 of the first batch, response cut inside the
-   second batch: Conn.offset falls back to 48 (a hole: nothing lost, but the fetch repeats) *)
-Theorem C02_offset_regress_in_compacted_tail_witness :
-  fetch_run no_decomp 100 50 52 (fetch_response no_compress g_layout 50 135) 135 false = Some ([], EEOF, 48).
-Proof. exact compacted_tail_then_partial_batch_regresses. Qed.
-Print Assumptions C02_offset_regress_in_compacted_tail_witness.
+Example C02_regression_consecutive_empty_batches :
+  fetch_run no_decomp 100 90 131 (fetch_response no_compress p_layout 90 262) 262 false
+  = Some ([msg_of (rec 90); msg_of (rec 130)], EEOF, 131).
+Proof. exact p_run. Qed.
+Example C02_regression_compacted_tail_then_partial_batch :
+  fetch_run no_decomp 100 50 52 (fetch_response no_compress g_layout 50 135) 135 false = Some ([], EEOF, 51).
+Proof. exact g_run. Qed.
+Example C02_regression_compressed_compacted_tail :
+  fetch_run no_decomp 100 49 51 (fetch_response no_compress c_layout 49 70) 70 false = Some ([], EEOF, 51).
+Proof. exact c_run. Qed.
 
 (* ------------------------------------------------------------------ L2: proved *)
 (* one generation of the background fetcher: for every sequence of broker / network answers
@@ -85,16 +86,15 @@ Theorem C02_generation_exact : forall run cfg log, increasing 0 log ->
 Proof. exact generation_exact. Qed.
 Print Assumptions C02_generation_exact.
 
-(* C02_conn_offset_advances, what does hold: whenever a generation is between two fetches, no
-   stored record lies between its restart offset (last sent + 1) and Conn.offset, in either
-   direction (Conn.offset may be ahead: compacted tail skipped; or behind: only inside a hole) *)
-Theorem C02_conn_offset_advances_partial : forall run cfg log o evs g' outs,
+(* whenever a generation is between two fetches, no stored record lies between its restart
+   offset (last sent + 1) and Conn.offset, in either direction *)
+Theorem C02_generation_conn_offset : forall run cfg log o evs g' outs,
   increasing 0 log ->
   evs_ok run cfg log (gen_start o) evs -> gen_run run cfg (gen_start o) evs = Some (g', outs) ->
   g_phase g' = PRead ->
   empty log (g_offset g') (g_conn g') /\ empty log (g_conn g') (g_offset g').
 Proof. exact generation_conn_offset. Qed.
-Print Assumptions C02_conn_offset_advances_partial.
+Print Assumptions C02_generation_conn_offset.
 
 (* C02_delivery_exact: for every label sequence (FetchMessage entries and receptions, SetOffset
    calls, steps of any generation — stale ones answered arbitrarily, cancelled ones cut
